@@ -43,6 +43,12 @@ func HandleCommonErrors(w http.ResponseWriter, r *http.Request, err error) {
 		api.BadRequest(w, ErrSchemaNotSpecified, err)
 	case errors.Is(err, ledgercontroller.ErrSchemaNotFound{}):
 		api.NotFound(w, err)
+	// A query the client built (filter, sort column, cursor, expansion) can be invalid on any read
+	// route, paginated or not
+	case errors.Is(err, storagecommon.ErrInvalidQuery{}) ||
+		errors.Is(err, ledger.ErrMissingFeature{}) ||
+		errors.Is(err, storagecommon.ErrNotPaginatedField{}):
+		api.BadRequest(w, ErrValidation, err)
 	default:
 		InternalServerError(w, r, err)
 	}
@@ -69,10 +75,7 @@ func HandleCommonWriteErrors(w http.ResponseWriter, r *http.Request, err error) 
 
 func HandleCommonPaginationErrors(w http.ResponseWriter, r *http.Request, err error) {
 	switch {
-	case errors.Is(err, storagecommon.ErrInvalidQuery{}) ||
-		errors.Is(err, ledger.ErrMissingFeature{}) ||
-		errors.Is(err, storagecommon.ErrNotPaginatedField{}) ||
-		errors.Is(err, ledgercontroller.ErrSchemaValidationError{}):
+	case errors.Is(err, ledgercontroller.ErrSchemaValidationError{}):
 		api.BadRequest(w, ErrValidation, err)
 	default:
 		HandleCommonErrors(w, r, err)
